@@ -56,6 +56,8 @@ func main() {
 		results = runC10(*tier, &sum)
 	case "C16":
 		results = runC16(*tier, &sum)
+	case "C14":
+		results = runC14(*tier, &sum)
 	default:
 		sum.Error = "no schedule scenarios for " + *prop
 	}
@@ -67,6 +69,9 @@ func main() {
 			"budget_exhausted": r.BudgetExhausted, "max_scheduling_points": r.MaxPoints, "scheduling_points_executed": r.Transitions,
 			"distinct_outcomes": len(r.Outcomes), "executions_with_interleaving": r.InterleavedRuns,
 		}
+		sc["names_written_by_some_execution"] = r.WrittenNames
+		sc["reads_of_never_written_names_not_scheduled"] = r.SkippedReads
+		sc["fixpoint_rounds"] = r.Rounds
 		if r.BoundCompleted < 0 {
 			delete(sc, "preemption_bound_completed")
 			delete(sc, "schedules_by_preemption_bound")
@@ -465,6 +470,105 @@ func runC16(tier string, sum *props.SchedSummary) []vs.Result {
 	return results
 }
 
+// ---------------------------------------------------------------- C14
+
+// c14Shared: one band object per execution, used by several threads through its
+// read-only operations (a network server plans LinkADRReq for many devices from
+// one band configuration).
+type c14Shared struct {
+	name    band.Name
+	prepare func(b band.Band)
+	devices [][]int
+}
+
+func c14Scenarios() []c14Shared {
+	seq := func(from, to int) []int {
+		var o []int
+		for i := from; i < to; i++ {
+			o = append(o, i)
+		}
+		return o
+	}
+	return []c14Shared{
+		{band.CN470, func(b band.Band) {
+			for i := 8; i < 96; i++ {
+				b.DisableUplinkChannelIndex(i)
+			}
+		}, [][]int{seq(0, 96), append(seq(0, 8), seq(40, 48)...), append(seq(0, 8), seq(80, 96)...)}},
+		{band.US915, func(b band.Band) {
+			for i := 0; i < 72; i++ {
+				if i/8 != 1 && i != 65 {
+					b.DisableUplinkChannelIndex(i)
+				}
+			}
+		}, [][]int{seq(0, 72), append(seq(8, 16), 65), seq(16, 40)}},
+		{band.EU868, func(b band.Band) {
+			b.AddChannel(867100000, 0, 5)
+			b.AddChannel(867300000, 0, 5)
+			b.AddChannel(867500000, 0, 5)
+		}, [][]int{{0, 1, 2}, {0, 1, 2, 3, 4, 5}, {0, 2, 4}}},
+	}
+}
+
+func c14Plan(b band.Band, dev []int) string {
+	pls := b.GetLinkADRReqPayloadsForEnabledUplinkChannelIndices(append([]int(nil), dev...))
+	got, err := b.GetEnabledUplinkChannelIndicesForLinkADRReqPayloads(append([]int(nil), dev...), pls)
+	return fmt.Sprintf("%+v -> %v (%v) enabled=%v", pls, got, err, b.GetEnabledUplinkChannelIndices())
+}
+
+func runC14(tier string, sum *props.SchedSummary) []vs.Result {
+	var out []vs.Result
+	budget := 200000
+	if tier == "thorough" {
+		budget = 2000000
+	}
+	for _, sh := range c14Scenarios() {
+		sh := sh
+		mk := func() band.Band {
+			b, err := band.GetConfig(sh.name, false, lorawan.DwellTimeNoLimit)
+			if err != nil {
+				panic(err)
+			}
+			sh.prepare(b)
+			return b
+		}
+		want := make([]string, len(sh.devices))
+		for i, d := range sh.devices {
+			want[i] = c14Plan(mk(), d)
+		}
+		sc := vs.Scenario{
+			Name:  fmt.Sprintf("one shared %s band object: LinkADRReq planning for %d devices from %d threads", sh.name, len(sh.devices), len(sh.devices)),
+			Setup: func() {},
+			Threads: func() []vs.Thread {
+				b := mk()
+				var ts []vs.Thread
+				for i := range sh.devices {
+					i := i
+					ts = append(ts, vs.Thread{Name: fmt.Sprintf("device-%d", i), Body: func() { vs.Observe(c14Plan(b, sh.devices[i])) }})
+				}
+				return ts
+			},
+			Check: func(x *vs.Execution) []vs.Problem {
+				var ps []vs.Problem
+				for i := range sh.devices {
+					if o := x.Obs[fmt.Sprintf("device-%d", i)]; len(o) != 1 || o[0] != want[i] {
+						ps = append(ps, vs.Problem{Key: "planner/result-depends-on-concurrent-planning", What: fmt.Sprintf("%s, device %v: planned %q while other devices were planned on the same band object, %q alone", sh.name, sh.devices[i], o, want[i])})
+					}
+				}
+				return ps
+			},
+		}
+		bound := 2
+		if tier == "thorough" {
+			bound = 3
+		}
+		out = append(out, vs.Explore(sc, bound, budget))
+		sc.Name += " [all interleavings]"
+		out = append(out, vs.ExploreAll(sc, budget))
+	}
+	return out
+}
+
 // ---------------------------------------------------------------- free-running pass (for -race builds)
 
 func freeRun(prop string, n int) {
@@ -480,6 +584,16 @@ func freeRun(prop string, n int) {
 			}
 			for _, t := range c10Threads() {
 				bodies = append(bodies, t.Body)
+			}
+		case "C14":
+			for _, sh := range c14Scenarios() {
+				sh := sh
+				b, _ := band.GetConfig(sh.name, false, lorawan.DwellTimeNoLimit)
+				sh.prepare(b)
+				for _, d := range sh.devices {
+					d := d
+					bodies = append(bodies, func() { c14Plan(b, d) })
+				}
 			}
 		case "C16":
 			kinds := c16Kinds()
